@@ -524,6 +524,105 @@ theorem C06_clientauth_bypass_fails_witness :
     crossVerdict [open_, star] (connect true sites [open_, star] [98, 46, 97, 46, 99, 111, 109] [47]) ≠ "ok" := by
   decide
 
+/-! ### One connection, SNI and Host apart (stream `c06.cross`) -/
+
+/-- `connect` (one name in both roles) is the diagonal of `connectSH`. -/
+theorem C06_connect_is_connectSH_diagonal (aesni : Bool) (sites : List Casket.VHost.Site) (cfgs : List Cfg)
+    (name path : Bytes) : connect aesni sites cfgs name path = connectSH aesni sites cfgs name name path := by
+  unfold connect connectSH
+  cases pipeline aesni cfgs name none <;> rfl
+
+/-- A handshake made under `sni` (whichever site's config governed it), then a request for `host`
+that reaches the chain of a site demanding client certificates (check on): the two names agree.
+Nothing is assumed about the site's host pattern — in particular a wildcard or catch-all pattern
+that would also match `sni` does not count as agreement: under `sni` the handshake may have been
+governed by a more specific site with another client-certificate policy. -/
+theorem C06_cross_clientauth_sni_host_agree (aesni : Bool) (sites : List Casket.VHost.Site) (cfgs : List Cfg)
+    (sni host path : Bytes) (sel : Obs) (i : Nat) (c : Cfg)
+    (hcon : connectSH aesni sites cfgs sni host path = (sel, .site i)) (htls : sel ≠ .plain)
+    (hc : cfgs[i]? = some c) (hauth : c.clientAuth ≠ 0) (hon : c.disableSNIMatching = false) :
+    lower sni = lower (Casket.VHost.stripPort host) := by
+  unfold connectSH at hcon
+  have key : serveTLS sites cfgs ⟨host, path, 1⟩ (some sni) = .site i := by
+    cases hp : pipeline aesni cfgs sni none with
+    | error n => rw [hp] at hcon; simp at hcon
+    | plain => rw [hp] at hcon; simp only [Prod.mk.injEq] at hcon; exact absurd hcon.1.symm htls
+    | nothing => rw [hp] at hcon; simp only [Prod.mk.injEq] at hcon; exact hcon.2
+    | any => rw [hp] at hcon; simp only [Prod.mk.injEq] at hcon; exact hcon.2
+    | cfg j b => rw [hp] at hcon; simp only [Prod.mk.injEq] at hcon; exact hcon.2
+  exact C06_clientauth_sni_host_agree sites cfgs ⟨host, path, 1⟩ sni i c key hc hauth hon
+
+/-- The other direction, as the code acts: on a TLS listener a request whose Host routes to a site
+demanding client certificates (check on) over a connection whose SNI differs from that Host is
+answered 403 — also when the site's own pattern matches the SNI. -/
+theorem C06_cross_mismatch_forbidden (aesni : Bool) (sites : List Casket.VHost.Site) (cfgs : List Cfg)
+    (sni host path : Bytes) (i : Nat) (p : Bytes) (c : Cfg)
+    (hlisten : ∀ n, pipeline aesni cfgs sni none ≠ .error n) (htls : pipeline aesni cfgs sni none ≠ .plain)
+    (hr : Casket.VHost.route sites ⟨host, path, 1⟩ = .site i p) (hc : cfgs[i]? = some c)
+    (hauth : c.clientAuth ≠ 0) (hon : c.disableSNIMatching = false)
+    (hne : lower sni ≠ lower (Casket.VHost.stripPort host)) :
+    (connectSH aesni sites cfgs sni host path).2 = .forbidden := by
+  have key : serveTLS sites cfgs ⟨host, path, 1⟩ (some sni) = .forbidden := by
+    unfold serveTLS
+    rw [hr]
+    simp only [hc]
+    have : strictSNIForbidden c (some sni).isSome ((some sni).getD []) (Casket.VHost.stripPort host) = true := by
+      unfold strictSNIForbidden
+      simp [hon, hauth, hne]
+    rw [if_pos this]
+  unfold connectSH
+  cases hp : pipeline aesni cfgs sni none with
+  | error n => exact absurd hp (hlisten n)
+  | plain => exact absurd hp htls
+  | nothing => exact key
+  | any => exact key
+  | cfg j b => exact key
+
+/-- The judged predicate of `c06.cross` holds of the model for all site sets, settings, server
+names, Hosts and paths (no hypotheses). -/
+theorem C06_cross_model_verdict_ok (aesni : Bool) (sites : List Casket.VHost.Site) (cfgs : List Cfg)
+    (sni host path : Bytes) :
+    crossSHVerdict cfgs sni ⟨host, path, 1⟩ (connectSH aesni sites cfgs sni host path) = "ok" := by
+  unfold crossSHVerdict connectSH
+  cases hp : pipeline aesni cfgs sni none with
+  | error n => rfl
+  | plain => rfl
+  | nothing => exact C06_snihost_model_verdict_ok sites cfgs ⟨host, path, 1⟩ (some sni)
+  | any => exact C06_snihost_model_verdict_ok sites cfgs ⟨host, path, 1⟩ (some sni)
+  | cfg j b => exact C06_snihost_model_verdict_ok sites cfgs ⟨host, path, 1⟩ (some sni)
+
+/-- `*.a.com:443` demands client certificates, `b.a.com:443` does not (either declaration order): the
+handshake under `b.a.com` is governed by the open site's config, a request for `x.a.com` over it
+routes to the wildcard site and gets 403 although `*.a.com` matches `b.a.com` too; under
+`x.a.com` as SNI and Host the wildcard site's own config governs and the request is served. -/
+def exWild : Cfg := ⟨[42, 46, 97, 46, 99, 111, 109], true, 0, 0, [], [], false, 4, [0], [], false⟩
+def exSpecific : Cfg := ⟨[98, 46, 97, 46, 99, 111, 109], true, 0, 0, [], [], false, 0, [], [], false⟩
+def exWildSite : Casket.VHost.Site := ⟨[42, 46, 97, 46, 99, 111, 109, 58, 52, 52, 51], false, [42, 46, 97, 46, 99, 111, 109]⟩
+def exSpecificSite : Casket.VHost.Site := ⟨[98, 46, 97, 46, 99, 111, 109, 58, 52, 52, 51], false, [98, 46, 97, 46, 99, 111, 109]⟩
+
+example :
+    (match connectSH true [exWildSite, exSpecificSite] [exWild, exSpecific] [98, 46, 97, 46, 99, 111, 109] [120, 46, 97, 46, 99, 111, 109] [47] with
+      | (.cfg j b, v) => (j, b.clientAuth, v) | _ => (9, 9, .notFound 0)) = (1, 0, .forbidden) ∧
+    (match connectSH true [exSpecificSite, exWildSite] [exSpecific, exWild] [98, 46, 97, 46, 99, 111, 109] [120, 46, 97, 46, 99, 111, 109] [47] with
+      | (.cfg j b, v) => (j, b.clientAuth, v) | _ => (9, 9, .notFound 0)) = (0, 0, .forbidden) ∧
+    (match connectSH true [exWildSite, exSpecificSite] [exWild, exSpecific] [120, 46, 97, 46, 99, 111, 109] [120, 46, 97, 46, 99, 111, 109] [47] with
+      | (.cfg j b, v) => (j, b.clientAuth, v) | _ => (9, 9, .notFound 0)) = (0, 4, .site 0) := by decide
+
+/-- the hypotheses of `C06_cross_mismatch_forbidden` hold there -/
+example :
+    (∀ n, pipeline true [exWild, exSpecific] [98, 46, 97, 46, 99, 111, 109] none ≠ .error n) ∧
+    pipeline true [exWild, exSpecific] [98, 46, 97, 46, 99, 111, 109] none ≠ .plain ∧
+    (match Casket.VHost.route [exWildSite, exSpecificSite] ⟨[120, 46, 97, 46, 99, 111, 109], [47], 1⟩ with
+      | .site i _ => some i | _ => none) = some 0 ∧
+    lower [98, 46, 97, 46, 99, 111, 109] ≠ lower (Casket.VHost.stripPort [120, 46, 97, 46, 99, 111, 109]) := by
+  refine ⟨?_, ?_, ?_, ?_⟩
+  · intro n h
+    have : (match pipeline true [exWild, exSpecific] [98, 46, 97, 46, 99, 111, 109] none with | .error _ => true | _ => false) = false := by decide
+    rw [h] at this; cases this
+  · decide
+  · decide
+  · decide
+
 /-! ### The `tls` block: directive → Config (`setupTLS`, stream `c06.setup`; through the loader to a
 listener and a real handshake: stream `c06.listener`) -/
 
